@@ -12,7 +12,7 @@ import sys, os, json, subprocess, shutil
 
 VERIF = os.path.dirname(os.path.dirname(os.path.abspath(__file__)))
 ALL = ["C%02d" % i for i in range(1, 20)]
-SCR = "/root/scratch/seedeval2"
+SCR = os.environ.get("SEEDEVAL_SCR", "/root/scratch/seedeval2")      # (several instances may run side by side)
 
 
 def sh(cmd, cwd=None, timeout=3000, env=None):
